@@ -234,3 +234,6 @@ func (p *Program) WalkTypes(fn func(fileIdx int, where string, t *Type)) {
 		}
 	}
 }
+
+// NormName is exported for the generated-code bed.
+func NormName(s string) string { return normName(s) }
